@@ -73,12 +73,8 @@ AllDev == {"RestoreOnlyMainParser", "RestoreWithoutInstrument", "StoreKeptOnFail
            "NoCleanupOnModelProcessorFailure"}
 NoDev  == {}
 
-\* scenarios given as JSON by the harness (oracle / replay of one case)
-JScenarios == JsonDeserialize(IOEnv.VT_CASES)
-
 SmallSpec == InitWith(Range(MCSmall)) /\ [][Next]_vars
 FullSpec  == InitWith(Range(MCFull)) /\ [][Next]_vars
-JSpec     == InitWith(Range(JScenarios)) /\ [][Next]_vars
 
 \* the enumerated scenarios, for replay against the implementation (printed from the initial states)
 EmitScenario == (phase = "run" /\ round = 1 /\ Len(stack) = 1 /\ stack[1].pc = "parse" /\ exc = "")
